@@ -202,6 +202,11 @@ def run(ck: Check, prog: Program) -> None:
                     ck.finding('RELATE-STRICT', brel.qualname, 'relate block skipped for an empty batch response', brel.module.rel, g.src.line,
                                f'`{norm(g.src.ast)}` guards the id matching by the truthiness of the batch response, and BatchResponse defines __len__: '
                                f'an EMPTY response array is falsy, so a server answering a batch of calls with [] is accepted without IdentityError')
+            elif ckd.subject and ckd.subject.endswith('.strict'):
+                # strictness decides whether mismatches RAISE; the linking of every accepted response to its request happens either way
+                ck.finding('RELATE-STRICT', brel.qualname, 'the whole relate block runs only in strict mode', brel.module.rel, g.src.line,
+                           f'`{norm(g.src.ast)}` stands in front of the id matching as a whole: in non-strict mode no response of a batch is linked '
+                           f'to the request with the same id (`related` stays None), although every accepted response must be')
             else:
                 raise AnalysisError(f'{brel.qualname}: unrecognised guard `{norm(g.src.ast)}` around the id matching')
     # ids of the wrong JSON type are rejected when the response is deserialised
@@ -394,6 +399,10 @@ def run(ck: Check, prog: Program) -> None:
             ck.finding('ERROR-RAISED', cm.qualname, f'batch call returns `{txt[:40]}`', cm.module.rel, line,
                        f'{ci_.name}.call returns `{txt}` instead of `response.result`: a batch answered with a batch-level error (one error object, '
                        f'no elements) yields an empty result instead of raising the error')
+    # "a JSON body that is not a valid JSON-RPC response raises the deserialisation error": result / error presence is read with UNSET
+    # as the absent marker, so that `"error": null` next to a result (or a falsy error) is not taken for an absent member
+    from . import c06 as _c06x
+    _c06x._presence_by_identity(ck, _c06x.model_program(prog))
 
 
 def result_iteration(prog: Program):
